@@ -116,7 +116,7 @@ func renameApart(body []Stmt, prefix string) {
 func ctlPrograms(c *Ctx, lines []string, tag string, every int, seed int64) []*Prog {
 	var out []*Prog
 	for i, ln := range lines {
-		if every > 1 && (int64(i)+seed)%int64(every) != 0 {
+		if !sampled(i, seed, every) {
 			continue
 		}
 		var body []Stmt
